@@ -54,6 +54,25 @@ def run(res, pid, mix, classes, rule, nquick=60, nthorough=1500, assumptions=(),
     res.cov["traces_validated_against_impl"] = len(specs) - len(tie_fail)
     res.cov["oracle_stats"] = stats
     res.cov["complaints_of_other_properties"] = other
+    if not own and tie_fail:
+        # failing-input search: the correspondence broke (or the code crashed) and the property's own oracles said nothing on
+        # these histories: more histories of every profile of the mix, on the real code only, judged by the same oracles
+        extra = []
+        for i in range(2 * len(mix) + 20 if res.tier == "quick" else 6 * len(mix)):
+            prof, kw = mix[i % len(mix)]
+            rng = vlib.rng_for(res.seed, f"{res.pid}/search/{prof}/{i}")
+            ops = [o for o in getattr(gen, "gen_" + prof)(rng, **kw) if "@DUMP" not in o]
+            extra.append((ops, hist.dostype_of(ops), hist.nblocks_of(ops)))
+        from concurrent.futures import ThreadPoolExecutor
+        def one_(sp):
+            try: return hist.run_one(exe, sp[0], sp[1], sp[2], lean=False, fsck_every=fsck_every, timeout=60)
+            except Exception: return None
+        with ThreadPoolExecutor(12) as ex:
+            for sp, r in zip(extra, ex.map(one_, extra)):
+                if r is None: continue
+                for (i, m) in r.oracle + r.fsck:
+                    if hist.classify(m) in classes: own.append((sp[0], i, m))
+        res.cov["failing_input_search_histories"] = len(extra)
     if own:
         # shrink the first failing history with the property's own oracle
         ops, i, m = own[0]
